@@ -129,7 +129,11 @@ def impl_instance(M, cfg):
     _COUNTER[0] += 1
     n = len(M)
     try:
-        inst = Instance(f"v{_COUNTER[0]}", np.array(M, dtype=np.int64), [f"t{i}" for i in range(n)], *cfg)
+        a = np.array(M, dtype=np.int64)
+        if a.ndim == 2 and a.size:     # same values in another memory layout, by turns (an instance is a function of the values)
+            k = _COUNTER[0] % 4
+            a = np.asfortranarray(a) if k == 1 else (a.T.copy().T if k == 2 else a)
+        inst = Instance(f"v{_COUNTER[0]}", a, [f"t{i}" for i in range(n)], *cfg)
     except (ValueError, TypeError):
         return None, None, "ERR"
     f = GamePlanLength(inst)
